@@ -73,6 +73,19 @@ fn div_point<N: Fld>(p: &DivPt) -> Outcome {
         Err(m) => o.viol("polynomial::divide", "no-panic", format!("{}: {}", ctx(), m)),
         Ok(Err(e)) => o.viol("polynomial::divide", "ok-for-nonzero-divisor", format!("{}: Err({})", ctx(), e)),
         Ok(Ok((q, r))) => {
+            // quotient and remainder must be usable polynomials: at least one stored coefficient, and order(), evaluate()
+            // and get_coefficient() must answer (a remainder without coefficients panics in all three)
+            for (name, poly) in [("quotient", &q), ("remainder", &r)] {
+                let probe = vcore::guard(|| (poly.order(), poly.evaluate(N::from_c(C::new(1.0, 0.0))), poly.get_coefficient(0), poly.get_coefficients().len()));
+                match probe {
+                    Err(m) => o.viol("polynomial::divide", "results-are-well-formed-polynomials", format!("{}: the {} cannot be read back: {}", ctx(), name, m)),
+                    Ok((_, _, _, 0)) => o.viol("polynomial::divide", "results-are-well-formed-polynomials", format!("{}: the {} has no coefficients", ctx(), name)),
+                    _ => {}
+                }
+            }
+            if !o.viols.is_empty() {
+                return o;
+            }
             let (q, r) = (asc(&q), asc(&r));
             let qd = school(&q, &d);
             let len = a.len().max(qd.len()).max(r.len());
